@@ -236,7 +236,12 @@ class Report:
         }
         if not ev["coverage"]["samples"]:
             ev["coverage"]["samples"] = ["(no case recorded)"]
-        with open(os.path.join(VERIF, "evidence", self.prop + ".json"), "w") as fp:
+        evdir = os.path.join(VERIF, "evidence")
+        if REPO != "/repo":
+            # a scratch tree (mutant / seeded change): never overwrite the evidence of the real tree
+            evdir = os.path.join(VERIF, "replays", "_evidence_other_trees")
+            os.makedirs(evdir, exist_ok=True)
+        with open(os.path.join(evdir, self.prop + ".json"), "w") as fp:
             json.dump(ev, fp, indent=1, sort_keys=True)
             fp.write("\n")
         for l in lines:
